@@ -1,4 +1,222 @@
+/-
+C27 — Built and signed wallet transactions are valid and pay as requested.
+
+Theorems are about `BytomModel.Model.Builder` (MergeSpendAction, spendAction.Build on top of
+the keeper's Reserve, control/retire actions, txbuilder.Build's error collection and
+rollback, TxData.Fee), which `./check C27` runs against the real account.Manager and
+txbuilder on every run. Programs, signatures and VM execution are outside this model: that
+the signed transaction passes `validation.ValidateTx` is established on the real code by the
+harness for every balanced request it generates (and composes, once those models are shared,
+with C01 `validate_complete`, C02 and C28).
+-/
 import BytomModel.Model.Builder
+import BytomModel.Lemmas.Builder
+import BytomModel.Props.C26
+
 namespace BytomModel.Props.C27
-theorem placeholder : (1:Nat) = 1 := rfl
+open BytomModel.Model.Keeper BytomModel.Model.Builder BytomModel.Lemmas.Keeper BytomModel.Lemmas.Builder
+
+theorem build_ok_inv (sortFn : List Utxo → List Utxo) (hperm : ∀ l, (sortFn l).Perm l) (k k' : Keeper) (exp : Nat)
+    (actions : List Action) (t : Tpl) (h : buildWith sortFn k exp actions = (.ok t, k')) :
+    BInv actions ⟨t.ins, t.outs, []⟩ ∧ t.fee = fee t.ins t.outs := by
+  unfold buildWith at h
+  cases hr : runActions sortFn exp actions 0 (k, ⟨[], [], []⟩) with
+  | mk s errs =>
+    obtain ⟨k1, b⟩ := s
+    rw [hr] at h
+    simp only at h
+    cases errs with
+    | cons e es => simp at h
+    | nil =>
+      simp only [List.isEmpty_nil, if_true, Prod.mk.injEq, Except.ok.injEq] at h
+      obtain ⟨rfl, rfl⟩ := h
+      have := runActions_inv sortFn hperm exp actions 0 (k, ⟨[], [], []⟩) (k1, b) [] hr binv_empty
+      simp only [List.nil_append] at this
+      exact ⟨⟨this.bal, this.recips, this.change, this.insrc⟩, rfl⟩
+
+/-- `built_tx_balances`: for every asset, what the template's inputs carry beyond its outputs
+    is exactly what the request spends beyond what it pays out (change outputs cancel). -/
+theorem built_tx_balances (sortFn : List Utxo → List Utxo) (hperm : ∀ l, (sortFn l).Perm l) (k k' : Keeper) (exp : Nat)
+    (actions : List Action) (t : Tpl) (h : buildWith sortFn k exp actions = (.ok t, k')) (asset : Nat) :
+    ofAssetIn asset t.ins + recvReq asset actions = ofAssetOut asset t.outs + spendReq asset actions :=
+  (build_ok_inv sortFn hperm k k' exp actions t h).1.bal asset
+
+/-- a request balances when every non-BTM asset is paid out exactly and BTM leaves a fee -/
+def Balanced (actions : List Action) : Prop :=
+  (∀ asset, asset ≠ btm → spendReq asset actions = recvReq asset actions) ∧
+  recvReq btm actions ≤ spendReq btm actions
+
+/-- `built_tx_valid_balance`: for a balanced request the template balances as consensus
+    requires (inputs = outputs for every other asset, BTM inputs ≥ outputs) and
+    `tpl.Fee` = BTM in − BTM out = requested BTM spend − requested BTM payments. -/
+theorem built_tx_valid_balance (sortFn : List Utxo → List Utxo) (hperm : ∀ l, (sortFn l).Perm l) (k k' : Keeper) (exp : Nat)
+    (actions : List Action) (t : Tpl) (h : buildWith sortFn k exp actions = (.ok t, k')) (hb : Balanced actions) :
+    (∀ asset, asset ≠ btm → ofAssetIn asset t.ins = ofAssetOut asset t.outs) ∧
+    ofAssetOut btm t.outs ≤ ofAssetIn btm t.ins ∧
+    t.fee = ofAssetIn btm t.ins - ofAssetOut btm t.outs ∧
+    t.fee = spendReq btm actions - recvReq btm actions := by
+  obtain ⟨hinv, hfee⟩ := build_ok_inv sortFn hperm k k' exp actions t h
+  have hbtm := hinv.bal btm
+  dsimp only at hbtm
+  refine ⟨?_, by have := hb.2; omega, ?_, ?_⟩
+  · intro asset hne
+    have h1 := hinv.bal asset
+    dsimp only at h1
+    have := hb.1 asset hne
+    omega
+  · rw [hfee]; unfold fee; split_ifs <;> omega
+  · rw [hfee]; unfold fee; have := hb.2; split_ifs <;> omega
+
+/-- the fee is always BTM inputs minus BTM outputs (0 when outputs exceed inputs) -/
+theorem fee_spec (sortFn : List Utxo → List Utxo) (hperm : ∀ l, (sortFn l).Perm l) (k k' : Keeper) (exp : Nat)
+    (actions : List Action) (t : Tpl) (h : buildWith sortFn k exp actions = (.ok t, k')) :
+    t.fee = ofAssetIn btm t.ins - ofAssetOut btm t.outs := by
+  rw [(build_ok_inv sortFn hperm k k' exp actions t h).2]
+  unfold fee; split_ifs <;> omega
+
+/-- `recipients_paid_exactly`: the template's non-change outputs are exactly the requested
+    control / retire outputs (asset, amount, program), in request order. -/
+theorem recipients_paid_exactly (sortFn : List Utxo → List Utxo) (hperm : ∀ l, (sortFn l).Perm l) (k k' : Keeper) (exp : Nat)
+    (actions : List Action) (t : Tpl) (h : buildWith sortFn k exp actions = (.ok t, k')) :
+    t.outs.filter (fun o => o.kind != .change) = reqOuts actions :=
+  (build_ok_inv sortFn hperm k k' exp actions t h).1.recips
+
+/-- `change_returns_to_spender`: every change output carries the program of an input of the
+    same asset that belongs to an account whose spend action of that asset is in the request
+    (wallet UTXO records carry the account that owns their program: C24 `attach_only_owned`). -/
+theorem change_returns_to_spender (sortFn : List Utxo → List Utxo) (hperm : ∀ l, (sortFn l).Perm l) (k k' : Keeper) (exp : Nat)
+    (actions : List Action) (t : Tpl) (h : buildWith sortFn k exp actions = (.ok t, k')) (o : TOut) (ho : o ∈ t.outs)
+    (hk : o.kind = .change) :
+    ∃ acct amount useUnc, Action.spend acct o.asset amount useUnc ∈ actions ∧
+      ∃ u ∈ t.ins, u.account = acct ∧ u.prog = o.prog ∧ u.asset = o.asset :=
+  (build_ok_inv sortFn hperm k k' exp actions t h).1.change o ho hk
+
+/-- every input spends an output of an account and asset some spend action names -/
+theorem inputs_from_requested_accounts (sortFn : List Utxo → List Utxo) (hperm : ∀ l, (sortFn l).Perm l) (k k' : Keeper) (exp : Nat)
+    (actions : List Action) (t : Tpl) (h : buildWith sortFn k exp actions = (.ok t, k')) (u : Utxo) (hu : u ∈ t.ins) :
+    ∃ acct amount useUnc, Action.spend acct u.asset amount useUnc ∈ actions ∧ u.account = acct :=
+  (build_ok_inv sortFn hperm k k' exp actions t h).1.insrc u hu
+
+/-- FULL statement "the template never spends an output twice". Refuted (F16). -/
+def inputs_distinct_full : Prop :=
+  ∀ (k k' : Keeper) (exp : Nat) (actions : List Action) (t : Tpl),
+    build k exp actions = (.ok t, k') → (t.ins.map (·.id)).Nodup
+
+theorem inputs_distinct_full_refuted : ¬ inputs_distinct_full := by
+  intro h
+  have := h { empty with confirmed := [⟨1, 0, 5, 1, 0, 0, false, 1⟩], unconfirmed := [⟨1, 0, 5, 1, 0, 0, false, 1⟩] }
+    _ 100 [.spend 1 0 8 true, .control 0 7 5] _ rfl
+  revert this; decide
+
+/-- a single spend action over a wallet without doubly listed outputs spends distinct outputs -/
+theorem single_spend_inputs_distinct (sortFn : List Utxo → List Utxo) (hperm : ∀ l, (sortFn l).Perm l) (k : Keeper)
+    (acct asset amount : Nat) (useUnc : Bool) (exp : Nat) (s' : Keeper × Builder)
+    (hnodup : ((listed k useUnc).map (·.id)).Nodup)
+    (h : buildAction sortFn exp (k, ⟨[], [], []⟩) (.spend acct asset amount useUnc) = (s', none)) :
+    (s'.2.ins.map (·.id)).Nodup := by
+  simp only [buildAction] at h
+  by_cases h0 : (amount == 0) = true
+  · simp [h0] at h
+  · simp only [h0, Bool.false_eq_true, if_false] at h
+    cases hres : reserveWith sortFn k acct asset amount useUnc 0 exp with
+    | mk o k1 =>
+      rw [hres] at h
+      cases o with
+      | err e => simp at h
+      | panic => simp at h
+      | ok r =>
+        have hd := (BytomModel.Props.C26.reserve_distinct_partial sortFn hperm k acct asset amount useUnc 0 exp r k1 hnodup hres).1
+        simp only at h
+        by_cases hbad : (r.utxos.takeWhile (fun u => decide (u.amount ≤ maxInt64))).length < r.utxos.length
+        · simp [hbad] at h
+        · simp only [hbad, if_false] at h
+          by_cases hchg : r.change > 0
+          · simp only [hchg, if_true] at h
+            cases hu0 : r.utxos with
+            | nil => rw [hu0] at h; simp at h
+            | cons u0 tl =>
+              rw [hu0] at h hd
+              simp only at h
+              by_cases hmax : r.change > maxInt64
+              · simp [hmax] at h
+              · simp only [hmax, if_false, Prod.mk.injEq, and_true] at h
+                subst h
+                simpa using hd
+          · simp only [hchg, if_false, Prod.mk.injEq, and_true] at h
+            subst h
+            simpa using hd
+
+/-- merging spend actions does not change what the request asks for -/
+theorem mergeSpends_preserves_recipients (actions : List Action) : reqOuts (mergeSpends actions) = reqOuts actions := by
+  unfold mergeSpends
+  have key : ∀ (l acc : List Action), reqOuts (l.foldl mergeStep acc) = reqOuts acc ++ reqOuts l := by
+    intro l
+    induction l with
+    | nil => intro acc; simp [reqOuts]
+    | cons a r ih =>
+      intro acc
+      simp only [List.foldl_cons]
+      rw [ih]
+      cases a with
+      | control s m p => simp [mergeStep, reqOuts_append, reqOuts]
+      | retire s m => simp [mergeStep, reqOuts_append, reqOuts]
+      | spend ac s m u =>
+        have hm : ∀ (acc acc' : List Action), mergeInto ac s m u acc = some acc' → reqOuts acc' = reqOuts acc := by
+          intro acc
+          induction acc with
+          | nil => intro acc' h; simp [mergeInto] at h
+          | cons x xs ihx =>
+            intro acc' h
+            cases x with
+            | spend a2 s2 m2 u2 =>
+              simp only [mergeInto] at h
+              split_ifs at h
+              · simp only [Option.some.injEq] at h; subst h; simp [reqOuts]
+              · cases hrec : mergeInto ac s m u xs with
+                | none => rw [hrec] at h; simp at h
+                | some ys =>
+                  rw [hrec] at h
+                  simp only [Option.map_some, Option.some.injEq] at h
+                  subst h
+                  simp [reqOuts, ihx ys hrec]
+            | control s2 m2 p2 =>
+              simp only [mergeInto] at h
+              cases hrec : mergeInto ac s m u xs with
+              | none => rw [hrec] at h; simp at h
+              | some ys =>
+                rw [hrec] at h
+                simp only [Option.map_some, Option.some.injEq] at h
+                subst h
+                simp [reqOuts, ihx ys hrec]
+            | retire s2 m2 =>
+              simp only [mergeInto] at h
+              cases hrec : mergeInto ac s m u xs with
+              | none => rw [hrec] at h; simp at h
+              | some ys =>
+                rw [hrec] at h
+                simp only [Option.map_some, Option.some.injEq] at h
+                subst h
+                simp [reqOuts, ihx ys hrec]
+        simp only [mergeStep]
+        cases hmi : mergeInto ac s m u acc with
+        | none => simp [reqOuts_append, reqOuts]
+        | some acc' => simp [hm acc acc' hmi, reqOuts]
+  simpa [reqOuts] using key actions []
+
+/-- non-trivial instance: single-key spend with change, two recipients, one retirement -/
+example : (build { empty with confirmed := [⟨1, 0, 2000, 1, 0, 0, false, 1⟩, ⟨2, 1, 300, 1, 0, 0, false, 2⟩] } 100
+    [.spend 1 0 1000 false, .spend 1 1 120 false, .control 0 500 5, .retire 0 400, .control 1 120 6]).1 =
+    .ok ⟨[⟨1, 0, 2000, 1, 0, 0, false, 1⟩, ⟨2, 1, 300, 1, 0, 0, false, 2⟩],
+         [⟨.change, 0, 1000, 1⟩, ⟨.change, 1, 180, 2⟩, ⟨.recv, 0, 500, 5⟩, ⟨.retire, 0, 400, 0⟩, ⟨.recv, 1, 120, 6⟩], 100⟩ := by
+  decide
+
+example : Balanced [.spend 1 0 1000 false, .spend 1 1 120 false, .control 0 500 5, .retire 0 400, .control 1 120 6] := by
+  refine ⟨fun asset hne => ?_, by decide⟩
+  simp only [spendReq, recvReq, btm] at *
+  by_cases h1 : asset = 1
+  · subst h1; simp
+  · have h1' : ¬ 1 = asset := fun x => h1 x.symm
+    have h0' : ¬ 0 = asset := fun x => hne x.symm
+    simp [h1', h0']
+
 end BytomModel.Props.C27
